@@ -9,6 +9,7 @@ mod conn;
 mod conngen;
 mod dbg;
 mod e2e;
+mod threads;
 mod gen_pure;
 mod pure;
 mod util;
@@ -26,7 +27,10 @@ fn main() {
             let cases: usize = args.get(4).and_then(|s| s.parse().ok()).unwrap_or(100);
             let out = std::io::stdout();
             let mut out = std::io::BufWriter::new(out.lock());
-            let ok = if profile.starts_with("e2e-") {
+            let ok = if profile == "threads" {
+                threads::generate(seed, cases, &mut out);
+                true
+            } else if profile.starts_with("e2e-") {
                 e2e::generate(profile, seed, cases, &mut out)
             } else if profile == "state-exhaustive" {
                 comp::gen_state_exhaustive(&mut out);
@@ -74,6 +78,9 @@ fn main() {
                     }
                     if ws[0].starts_with("cn_") {
                         return cn.handle(&ws);
+                    }
+                    if ws[0] == "thr_run" {
+                        return threads::handle(&ws);
                     }
                     if ws[0] == "e2e_run" {
                         return e2e::handle(&ws);
